@@ -21,6 +21,32 @@ type CorreOTSendSetup struct {
 	_K_Delta [params.OTParam][params.OTBytes]byte
 }
 
+// MarshalBinary implements encoding.BinaryMarshaler: Delta followed by the columns of K_Delta.
+// (The fields are not exported; without this method the setup would silently be left out of a stored config.)
+func (s *CorreOTSendSetup) MarshalBinary() ([]byte, error) {
+	if s == nil {
+		return nil, errors.New("CorreOTSendSetup: nil")
+	}
+	out := make([]byte, 0, (1+params.OTParam)*params.OTBytes)
+	out = append(out, s._Delta[:]...)
+	for i := range s._K_Delta {
+		out = append(out, s._K_Delta[i][:]...)
+	}
+	return out, nil
+}
+
+// UnmarshalBinary implements encoding.BinaryUnmarshaler.
+func (s *CorreOTSendSetup) UnmarshalBinary(data []byte) error {
+	if len(data) != (1+params.OTParam)*params.OTBytes {
+		return errors.New("CorreOTSendSetup: wrong length")
+	}
+	copy(s._Delta[:], data)
+	for i := range s._K_Delta {
+		copy(s._K_Delta[i][:], data[(1+i)*params.OTBytes:])
+	}
+	return nil
+}
+
 // CorreOTSetupSender contains all of the state to run the Sender's setup of a Correlated OT.
 //
 // This struct is needed, because there are multiple rounds in the setup.
@@ -121,6 +147,36 @@ func (r *CorreOTSetupSender) Round3(msg *CorreOTSetupReceiveRound3Message) (*Cor
 type CorreOTReceiveSetup struct {
 	_K_0 [params.OTParam][params.OTBytes]byte
 	_K_1 [params.OTParam][params.OTBytes]byte
+}
+
+// MarshalBinary implements encoding.BinaryMarshaler: the columns of K_0 followed by those of K_1.
+// (The fields are not exported; without this method the setup would silently be left out of a stored config.)
+func (s *CorreOTReceiveSetup) MarshalBinary() ([]byte, error) {
+	if s == nil {
+		return nil, errors.New("CorreOTReceiveSetup: nil")
+	}
+	out := make([]byte, 0, 2*params.OTParam*params.OTBytes)
+	for i := range s._K_0 {
+		out = append(out, s._K_0[i][:]...)
+	}
+	for i := range s._K_1 {
+		out = append(out, s._K_1[i][:]...)
+	}
+	return out, nil
+}
+
+// UnmarshalBinary implements encoding.BinaryUnmarshaler.
+func (s *CorreOTReceiveSetup) UnmarshalBinary(data []byte) error {
+	if len(data) != 2*params.OTParam*params.OTBytes {
+		return errors.New("CorreOTReceiveSetup: wrong length")
+	}
+	for i := range s._K_0 {
+		copy(s._K_0[i][:], data[i*params.OTBytes:])
+	}
+	for i := range s._K_1 {
+		copy(s._K_1[i][:], data[(params.OTParam+i)*params.OTBytes:])
+	}
+	return nil
 }
 
 // CorreOTSetupReceiver holds the Receiver's state on a Correlated OT Setup.
@@ -250,6 +306,10 @@ type CorreOTSendResult struct {
 // that ctxHash be initialized with some kind of nonce in that case.
 func CorreOTSend(ctxHash *hash.Hash, setup *CorreOTSendSetup, batchSize int, msg *CorreOTReceiveMessage) (*CorreOTSendResult, error) {
 	batchSizeBytes := batchSize >> 3
+
+	if msg == nil {
+		return nil, errors.New("CorreOTSend: missing message")
+	}
 
 	// Doing a keyed hash for our PRG is faster than cloning a forked hash many times
 	prgKey := make([]byte, 32)
